@@ -343,16 +343,18 @@ def quantOnceE (vals : Nat → ValueS) (x : Ext) : List Nat → List Nat → Exc
         | .ok (r, seen') => .ok (q ++ r, seen')
     else quantOnceE vals x vs seen
 
-/-- 1935-1944: node outputs that are not graph outputs: annotation (no `annotated` check), value_info -/
-def nodeOutsE (vals : Nat → ValueS) (x : Ext) (gouts : List Nat) : List Nat → Except SErr (List QuantP × List VInfoE)
+/-- 1935-1944: node outputs that are not graph outputs: annotation (no `annotated` check), value_info.
+    `annot = false`: the node loop of `serialize_function_into` (2024-2035), which writes no annotations -/
+def nodeOutsE (vals : Nat → ValueS) (x : Ext) (annot : Bool) (gouts : List Nat) :
+    List Nat → Except SErr (List QuantP × List VInfoE)
   | [] => .ok ([], [])
   | v :: vs =>
-    if gouts.contains v then nodeOutsE vals x gouts vs
+    if gouts.contains v then nodeOutsE vals x annot gouts vs
     else
-      match quantOfE vals x v with
+      match (if annot then quantOfE vals x v else .ok []) with
       | .error e => .error e
       | .ok q =>
-        match nodeOutsE vals x gouts vs with
+        match nodeOutsE vals x annot gouts vs with
         | .error e => .error e
         | .ok (qs, vis) =>
           let c := vals v
@@ -420,7 +422,7 @@ def serGraphE (vals : Nat → ValueS) (x : Ext) (td : TData) (ver : Option Int) 
         | .error e => .error e
         | .ok (qInit, seen2) =>
           let (vis1, tps, ws1) := serInitsE vals x td inputNames inits
-          match serNodesE vals x td ver outputs nodes with
+          match serNodesE vals x td ver true outputs nodes with
           | .error e => .error e
           | .ok (nps, qNodes, vis2, ws2) =>
             match liftS (serValuesE vals x outputs) with
@@ -430,18 +432,18 @@ def serGraphE (vals : Nat → ValueS) (x : Ext) (td : TData) (ver : Option Int) 
               | .error e => .error e
               | .ok (qOut, _) =>
                 .ok (.mk insP tps (vis1 ++ vis2) nps outsP (qIn ++ qInit ++ qNodes ++ qOut), ws1 ++ ws2)
-def serNodesE (vals : Nat → ValueS) (x : Ext) (td : TData) (ver : Option Int) (gouts : List Nat) :
+def serNodesE (vals : Nat → ValueS) (x : Ext) (td : TData) (ver : Option Int) (annot : Bool) (gouts : List Nat) :
     List NodeT → Except EErr (List NodeE × List QuantP × List VInfoE × Writes)
   | [] => .ok ([], [], [], [])
   | n :: ns =>
-    match serNodeE vals x td ver gouts n with
+    match serNodeE vals x td ver annot gouts n with
     | .error e => .error e
     | .ok (np, q, vi, ws1) =>
-      match serNodesE vals x td ver gouts ns with
+      match serNodesE vals x td ver annot gouts ns with
       | .error e => .error e
       | .ok (nps, qs, vis, ws2) => .ok (np :: nps, q ++ qs, vi ++ vis, ws1 ++ ws2)
 /-- `serialize_node_into` (inputs, outputs, attributes, device configurations), then the loop over its outputs -/
-def serNodeE (vals : Nat → ValueS) (x : Ext) (td : TData) (ver : Option Int) (gouts : List Nat) :
+def serNodeE (vals : Nat → ValueS) (x : Ext) (td : TData) (ver : Option Int) (annot : Bool) (gouts : List Nat) :
     NodeT → Except EErr (NodeE × List QuantP × List VInfoE × Writes)
   | .mk id _ inputs outputs subs =>
     match liftS (serInputs vals inputs) with
@@ -456,7 +458,7 @@ def serNodeE (vals : Nat → ValueS) (x : Ext) (td : TData) (ver : Option Int) (
           match serDevRsGated vals ver (x.devs id) with
           | .error e => .error (.dev e)
           | .ok ds =>
-            match liftS (nodeOutsE vals x gouts outputs) with
+            match liftS (nodeOutsE vals x annot gouts outputs) with
             | .error e => .error e
             | .ok (q, vi) => .ok (.mk ins outs ds gps, q, vi, ws)
 def serSubsE (vals : Nat → ValueS) (x : Ext) (td : TData) (ver : Option Int) :
@@ -476,5 +478,119 @@ def serializeE (ver : Option Int) (w : WorldE) : Except EErr (WorldE × GraphE) 
   match serGraphE w.st.vals w.ext w.st.tdata ver w.root with
   | .error e => .error e
   | .ok (p, ws) => .ok (⟨w.st.writes ws, w.ext, w.root⟩, p)
+
+/-! ## functions (IR version >= 10 format) and models -/
+
+/-- `FunctionProto`: no quantization annotations (`quantization_annotations={}`, 972-976) -/
+structure FuncE where
+  id : FId
+  inputs : List Name
+  outputs : List Name
+  vinfo : List VInfoE
+  nodes : List NodeE
+
+def FuncE.erase (f : FuncE) : FuncP := ⟨f.id, f.inputs, f.outputs, f.vinfo.map VInfoE.erase, eraseNs f.nodes⟩
+
+structure ModelE where
+  graph : GraphE
+  funcs : List FuncE
+
+def eraseM (p : ModelE) : ModelP := ⟨eraseG p.graph, p.funcs.map FuncE.erase⟩
+
+/-- 959-965: the function inputs, with the metadata of their value_info entry -/
+def deserFInputsE (st : Store) (x : Ext) (vt : List (Name × Info × SS)) : List Name → Store × Ext × List Nat
+  | [] => (st, x, [])
+  | n :: ns =>
+    ((deserFInputsE (newNamed st (eraseVT vt) n) (x.newNamed vt [] st.nv n) vt ns).1,
+      (deserFInputsE (newNamed st (eraseVT vt) n) (x.newNamed vt [] st.nv n) vt ns).2.1,
+      st.nv :: (deserFInputsE (newNamed st (eraseVT vt) n) (x.newNamed vt [] st.nv n) vt ns).2.2)
+
+/-- `deserialize_function` -/
+def deserFunctionE (st : Store) (x : Ext) (f : FuncE) : Except Err (Store × Ext × GraphT) :=
+  let vt := vinfoTableE f.vinfo
+  let r1 := deserFInputsE st x vt f.inputs
+  match declareNodesE r1.1 r1.2.1 (finputTable f.inputs r1.2.2) vt [] f.nodes with
+  | .error e => .error e
+  | .ok (st2, x2, tbl2) =>
+    match deserNodesE st2 x2 tbl2 [] vt [] f.nodes with
+    | .error e => .error e
+    | .ok (st3, x3, tbl3, ns) =>
+      match deserFOutputs tbl3 f.outputs with
+      | .error e => .error e
+      | .ok outs => .ok ((mkGraph st3 r1.2.2 outs ns []).1, x3, (mkGraph st3 r1.2.2 outs ns []).2)
+
+def deserFuncsE (st : Store) (x : Ext) (d : List (FId × GraphT)) :
+    List FuncE → Except Err (Store × Ext × List (FId × GraphT))
+  | [] => .ok (st, x, d)
+  | f :: fs =>
+    match deserFunctionE st x f with
+    | .error e => .error e
+    | .ok (st1, x1, g) => deserFuncsE st1 x1 (fdictInsert d f.id g) fs
+
+/-- an IR model with functions and the extension state -/
+structure MWorldE where
+  st : Store
+  ext : Ext
+  root : GraphT
+  funcs : List (FId × GraphT)
+
+def MWorldE.core (w : MWorldE) : MWorld := ⟨w.st, w.root, w.funcs⟩
+
+/-- `deserialize_model` (main graph, functions) -/
+def deserializeME (p : ModelE) : Except Err MWorldE :=
+  match deserGraphE {} {} [] p.graph with
+  | .error e => .error e
+  | .ok (st, x, g) =>
+    match deserFuncsE st x [] p.funcs with
+    | .error e => .error e
+    | .ok (st1, x1, fs) => .ok ⟨st1, x1, g, fs⟩
+
+/-- 2006-2013 -/
+def serFInputsE (vals : Nat → ValueS) (x : Ext) : List Nat → Except SErr (List Name × List VInfoE)
+  | [] => .ok ([], [])
+  | v :: vs =>
+    match (vals v).name with
+    | none => .error .nameNone
+    | some n =>
+      match serFInputsE vals x vs with
+      | .error e => .error e
+      | .ok (ns, vis) =>
+        .ok (n :: ns, if shouldCreateE (vals v) (x.vmeta v) then ⟨n, (vals v).info.emit, ssSorted (x.vmeta v)⟩ :: vis else vis)
+
+/-- `serialize_function_into` (IR version >= 10): no annotations, value_info for the inputs and for every node
+    output that has something to say -/
+def serFunctionE (vals : Nat → ValueS) (x : Ext) (td : TData) (ver : Option Int) (f : FId × GraphT) :
+    Except EErr (FuncE × Writes) :=
+  match f with
+  | (id, .mk _ inputs _ nodes outputs) =>
+    match liftS (serFInputsE vals x inputs) with
+    | .error e => .error e
+    | .ok (ins, vis1) =>
+      match liftS (serOutNames vals outputs) with
+      | .error e => .error e
+      | .ok outs =>
+        match serNodesE vals x td ver false [] nodes with
+        | .error e => .error e
+        | .ok (nps, _, vis2, ws) => .ok (⟨id, ins, outs, vis1 ++ vis2, nps⟩, ws)
+
+def serFuncsE (vals : Nat → ValueS) (x : Ext) (td : TData) (ver : Option Int) :
+    List (FId × GraphT) → Except EErr (List FuncE × Writes)
+  | [] => .ok ([], [])
+  | f :: fs =>
+    match serFunctionE vals x td ver f with
+    | .error e => .error e
+    | .ok (fp, ws1) =>
+      match serFuncsE vals x td ver fs with
+      | .error e => .error e
+      | .ok (fps, ws2) => .ok (fp :: fps, ws1 ++ ws2)
+
+/-- `serialize_model` (IR version >= 10) -/
+def serializeME (ver : Option Int) (w : MWorldE) : Except EErr (MWorldE × ModelE) :=
+  match serGraphE w.st.vals w.ext w.st.tdata ver w.root with
+  | .error e => .error e
+  | .ok (p, ws1) =>
+    match serFuncsE w.st.vals w.ext w.st.tdata ver w.funcs with
+    | .error e => .error e
+    | .ok (fps, ws2) => .ok (⟨w.st.writes (ws1 ++ ws2), w.ext, w.root, w.funcs⟩, ⟨p, fps⟩)
 
 end IrVerif.Scope
